@@ -42,6 +42,10 @@ CHECKS = {
    technique="exhaustive product of small alphabets (steps x parameters x parameterised model x environment set x target x derivative kind x parameter table) through the real state_gradient, every gradient entry compared with an independent forward-mode derivative (expm_frechet) of a first-principles simulation",
    text="Every member of the full product (quick 2092 / thorough ~11k cases: N in 1..3(4), M in 1..3, H / rate / jump-operator parameter dependence, one / commuting / non-commuting / three environments built as exact ancilla process tensors and PT-TEMPO, both list orders, matrix and callable targets, user-supplied and numdifftools propagator derivatives, generic and symmetric parameter tables, d=3, non-zero start time, capped process tensors) is run through state_gradient; each of the 2N x M gradient entries, every reported state, final_state and the time axis are compared with an independent oracle (own Lindbladian derivative + scipy expm_frechet pushed through a joint system+ancilla simulation, cross-checked by a second plain-numpy contraction). Bounded-exhaustive over the alphabet only.",
    note="Tolerances 1e-11 (user derivatives) / 1e-8 (numdifftools) with >=300x measured head-room; trusts scipy expm/expm_frechet and mc/refmodel.py. PT-TEMPO process tensors need N>=2."),
+ "C20": dict(category="model_checking", design="4/C20",
+   technique="explicit enumeration of all usage histories (evaluate / build bath / read through bath / run Tempo / set public attribute / switch object) up to depth 4/5 on real shared objects with fresh-object replay as oracle, plus exhaustive (API array argument x memory layout) product and all orders of computations on shared objects",
+   text="For PowerLawSD, CustomSD and CustomCorrelations every history over a 7-operation menu up to depth 4 (quick) / 5 (thorough) that ends in an observation is executed on real objects; each observation must equal the one made on freshly constructed objects with the current values (for a bath built earlier: the values at its construction). 19 array arguments of the public API are each passed in up to 7 memory layouts (C, Fortran, transposed view, strided view, read-only, real dtype, nested list): identical results, caller buffer bitwise unchanged, no exception. Shared system/bath/parameter/process-tensor objects are reused by 5 computations in all orders (quick: 36 orders) and compared with fresh equal objects. Two aliasing/memoisation defects are recorded as known findings.",
+   note="Public attributes exercised: alpha / j_function / correlation_function and temperature. Tempo comparisons 1e-6 at epsrel 1e-9; correlation values 1e-9."),
 }
 NOT_YET = "check not built yet in this round (see DESIGN.md sec. 8 build order)"
 
